@@ -5,6 +5,8 @@ from . import build, model
 from .build import AnalysisBroken, VERIF
 
 KNOWN_FILE = os.path.join(VERIF, "known_findings.json")
+# VERIF_OUT redirects evidence/ and reports/ (used only by the self-test sweeps, which analyse scratch copies of the repository in parallel)
+OUT = os.environ.get("VERIF_OUT", VERIF)
 
 
 def load_known():
@@ -150,7 +152,7 @@ class Check:
             else:
                 self.rule(v["rule"])["violations"] += 1
                 new.append(v)
-        rep_dir = os.path.join(VERIF, "reports", self.pid)
+        rep_dir = os.path.join(OUT, "reports", self.pid)
         if new:
             os.makedirs(rep_dir, exist_ok=True)
         for n, v in enumerate(new):
@@ -180,8 +182,8 @@ class Check:
         cov.update(self.extra)
         ev = {"property_id": self.pid, "tier": self.tier, "seed": self.seed, "level": self.level, "coverage": cov,
               "assumptions": self.assumptions, "wall_s": round(time.time() - self.t0, 2), "violations": len(new)}
-        os.makedirs(os.path.join(VERIF, "evidence"), exist_ok=True)
-        with open(os.path.join(VERIF, "evidence", "%s.json" % self.pid), "w") as f:
+        os.makedirs(os.path.join(OUT, "evidence"), exist_ok=True)
+        with open(os.path.join(OUT, "evidence", "%s.json" % self.pid), "w") as f:
             json.dump(ev, f, indent=1, default=str)
         print("%s %s: %d obligations over %d rules, %d discharged, %d known findings, %d violations, %.1fs" % (
             self.pid, self.tier, obligations, len(self.rules), discharged, n_known, len(new), time.time() - self.t0))
